@@ -83,19 +83,25 @@ fn cmd_query(args: &[String]) -> i32 {
     use scryer_prolog::verif_hooks as vh;
     let mut m = mach::Mach::new();
     let int_at: Option<u64> = arg_val(args, "--int").and_then(|s| s.parse().ok());
+    let budget: Option<u64> = arg_val(args, "--budget").and_then(|s| s.parse().ok());
+    let dump: Option<String> = arg_val(args, "--dump");
     let mut skip = false;
     for q in args {
         if skip {
             skip = false;
             continue;
         }
-        if q == "--int" {
+        if q == "--int" || q == "--budget" || q == "--dump" {
             skip = true;
             continue;
         }
         let t0 = vh::ticks();
         vh::set_catch_trace(true);
         let is_last = std::ptr::eq(q, args.last().unwrap());
+        if let Some(b) = budget {
+            vh::set_tick_budget(vh::ticks() + b);
+            vh::set_p_trace(true);
+        }
         let r = m.run_with(q, 50, |k| {
             if k == 0 && is_last {
                 if let Some(n) = int_at {
@@ -104,6 +110,20 @@ fn cmd_query(args: &[String]) -> i32 {
             }
         });
         println!("{}\n   => {}   [{} ticks, interrupt fired at {}] caught by {:?}", q, r.text(), vh::ticks() - t0, vh::interrupt_fired_at().saturating_sub(t0), vh::take_catch_trace());
+        if r.panic.as_deref().map(|p| p.contains("TickBudget")).unwrap_or(false) {
+            if let Some((k, d)) = m.hang_site() {
+                println!("   hang site: {k}{d}");
+            }
+        }
+    }
+    if let Some(d) = dump {
+        let (a, b) = d.split_once("..").unwrap();
+        let (a, b): (usize, usize) = (a.parse().unwrap(), b.parse().unwrap());
+        for i in a..b {
+            let mut t = vh::instr_text(m.machine(), i);
+            t.truncate(400);
+            println!("  {i} {} {t}", vh::predicate_at(m.machine(), i));
+        }
     }
     0
 }
